@@ -443,8 +443,8 @@ def gen_vec(rng, tier):
                 yield {"fam": "vec.shared", "col": {"vals": COLTYPES["int"][:n], "name": "x", "shared": True}, "key": ks,
                        "value": {"v": "scalar", "x": x}}
     # random larger cases
-    for _ in range(60000 if full else 3000):
-        n = rng.randint(0, 7)
+    for it_ in range(60000 if full else 3000):
+        n = rng.randint(0, 7) if it_ % 40 else rng.choice([32, 33, 64, 130, 257, 300])     # now and then a long column
         ct = rng.choice(list(COLTYPES))
         vals = [rng.choice(COLTYPES[ct]) for _ in range(n)]
         col = {"vals": vals, "name": rng.choice([None, "x"]), "dtype": rng.choice(["infer", "infer", "infer", "nullable", "object"])}
